@@ -718,6 +718,9 @@ func (e *ArithmeticExpression) Evaluate(ctx *Context, input system.Collection) (
 	if errors.Is(err, system.ErrIntOverflow) {
 		return system.Collection{}, nil // "Operations that cause arithmetic overflow or underflow will result in empty ( { } )".
 	}
+	if errors.Is(err, ErrDivideByZero) {
+		return system.Collection{}, nil // "If an attempt is made to divide by zero, the result is empty ( { } )".
+	}
 	if err != nil {
 		return nil, err
 	}
